@@ -73,7 +73,15 @@ def build_harness():
 def build_lean(targets=None):
     """lake build (model, spec, theorems, driver). Returns (ok, log)."""
     cmd = ["lake", "build"] + (targets or [])
-    rc, out = run(cmd, cwd=LEAN_DIR, timeout=7200)
+    # checks may run side by side (tools/allquick.sh, a parallel thorough run): two `lake build`s in one package race on the
+    # .olean files of the modules both need, so builds take turns
+    import fcntl
+    with open(os.path.join(LEAN_DIR, ".lake-build.lock"), "w") as lk:
+        fcntl.flock(lk, fcntl.LOCK_EX)
+        try:
+            rc, out = run(cmd, cwd=LEAN_DIR, timeout=7200)
+        finally:
+            fcntl.flock(lk, fcntl.LOCK_UN)
     return rc == 0, out
 
 
